@@ -10,7 +10,8 @@ Lean gate model):
      endpoints, against the model's gate machine and an independent Python reading of "last toggle";
   5. RemoteStore with requests.get/post redirected to the test client, random store histories vs a twin MemoryStore.
 """
-import itertools, json, copy, urllib.parse, warnings
+import glob, itertools, json, copy, os, urllib.parse, warnings
+import common
 from common import hx
 from props.C03 import rand_text
 
@@ -24,7 +25,8 @@ TRUSTED = ["modelled (hand-written Lean mirror): enable/disable_remote_registrat
            "translated: Flask url_map + ast of every view function, RemoteStore method -> URL table (Gen/Routes.lean)",
            "Flask/werkzeug routing, header handling, WSGI, the requests library (replaced by an adapter onto the Flask test client: requote_uri + path) are third party"]
 ASSUMPTIONS = ["the client quotes the query path (urllib.parse.quote); the WSGI layer un-quotes once",
-               "store keys in endpoint histories are non-empty (the <path:query> converter cannot address the root key)",
+               "query paths contain no raw newline and no empty segment (werkzeug's path converter rejects / merges them; encode_token and Query.encode never produce them)",
+               "the root key '' is used with the read-only directory operations only (listdir, is_dir, contains, get_metadata)",
                "time stamps (created/updated) in store metadata are masked",
                "well-formed store histories: data and metadata are written only under keys that are never used as directories (MemoryStore.get_metadata rewrites the stored is_dir flag of a key that is both)",
                "xlsx output embeds its creation time and is compared by status and media type only"]
@@ -231,6 +233,8 @@ def gen_store_hist(rng, n):
     for _ in range(rng.randint(1, n)):
         op = rng.choice(STORE_OPS + ["put", "put", "get", "remove"])
         k = rng.choice(FILE_KEYS if op in ("put", "upload", "putm") else DIR_KEYS if op == "makedir" else KEYS)
+        if op in ("listdir", "is_dir", "contains", "getm") and rng.random() < 0.1:
+            k = ""            # the root directory
         arg = None
         if op in ("put", "upload"):
             arg = rng.choice(["", "data", "\x00\xff", rand_text(rng)])
@@ -544,6 +548,8 @@ def gen_remote_hist(rng, n):
     for _ in range(rng.randint(1, n)):
         op = rng.choice(REMOTE_OPS + ["store", "store", "contains", "get_bytes"])
         k = rng.choice(FILE_KEYS if op in ("store", "store_metadata") else DIR_KEYS if op == "makedir" else KEYS)
+        if op in ("listdir", "is_dir", "contains", "get_metadata") and rng.random() < 0.1:
+            k = ""            # the root directory
         arg = None
         if op == "store":
             arg = [rng.choice(["", "data", "\x00\xff", rand_text(rng)]), rng.choice([{}, {"title": "t"}, {"mimetype": "text/x-test"}])]
@@ -623,8 +629,16 @@ def run(ctx):
         if k in ebt:
             ebt[k] = [e for e in ebt[k] if e in ("txt", "b", "bin", "json", "html", "csv", "md", "zzz", "png")]
 
+    # ---- corpus first (minimised past failures)
+    for p in sorted(glob.glob(os.path.join(common.VERIF, "corpus", "C20", "*.json"))):
+        case = json.load(open(p))["case"]
+        ctx.case("corpus:" + os.path.basename(p))
+        still = replay_case(client, case)
+        if still:
+            ctx.violation("corpus:" + os.path.basename(p), still, case)
+
     # ---- 1. serve
-    nq = 6000 if thorough else 700
+    nq = 6000 if thorough else 600
     ok = fail = 0
     for i in range(nq):
         q = gen_query(rng, P, ebt) if rng.random() < 0.8 else gen_failing(rng, P)
@@ -644,7 +658,9 @@ def run(ctx):
     ctx.count("queries", "failing", fail)
     # wire: what the view receives is what the client quoted (model: unquote (quote s) = s)
     texts = [rand_text(rng) for _ in range(2000 if thorough else 300)]
-    texts = [t for t in texts if t and not t.startswith("/")]
+    # werkzeug's <path:…> converter does not match a raw newline and merges empty segments (both are
+    # never produced by encode_token / Query.encode): outside the routable domain
+    texts = [t for t in texts if t and not t.startswith("/") and "//" not in t and "\n" not in t]
     got = []
     for t in texts:
         r = client.get(PREFIX + "/api/cache/contains/" + urllib.parse.quote(t))
@@ -656,7 +672,7 @@ def run(ctx):
             ctx.violation("wire:" + hx(t), "path %r quoted by the client reaches the view as %r" % (t, bytes.fromhex(g).decode("utf-8", "replace") if g != "-" else ""), dict(kind="wire", text=t))
 
     # ---- 2./3. endpoint histories
-    nh = 1500 if thorough else 150
+    nh = 4000 if thorough else 400
     for name, gen, runner in (("store", gen_store_hist, run_store_hist), ("cache", gen_cache_hist, run_cache_hist)):
         for i in range(nh):
             h = gen(rng, 15)
@@ -676,18 +692,22 @@ def run(ctx):
     ctx.exhaustive.append("all %d histories of length <= 5 over enable/disable/register, through liquer.commands, the POST endpoint and the GET endpoint" % len(hists))
     model = ctx.driver.ask(["web.gate 0 " + (h or "-") for h in hists])
     for channel in ("function", "post", "get"):
-        impl = []
+        impl, reported = [], 0
         for h in hists:
             ctx.case("gate:%s:%s" % (channel, h) if "r" in h else None)
             o = run_gate(client, channel, h, payloads)
             impl.append(o)
             if o != gate_spec(h):
+                ctx.count("gate histories violating the property", channel)
+                reported += 1
+                if reported > 2:      # histories are enumerated by length: the first ones are the minimal ones
+                    continue
                 ctx.violation("gate:%s:%s" % (channel, h), "history %s through %s: outcomes %s, expected %s (a registration is accepted iff the most recent toggle before it was enable)" % (
                     "/".join(dict(e="enable", d="disable", r="register")[c] for c in h), channel, o, gate_spec(h)), dict(kind="gate", channel=channel, history=h))
         ctx.compare("gate machine (%s)" % channel, hists, impl, model)
 
     # ---- 5. RemoteStore against the served store
-    nr = 1200 if thorough else 120
+    nr = 3000 if thorough else 300
     for i in range(nr):
         h = gen_remote_hist(rng, 15)
         ops = {o for o, _, _ in h}
@@ -705,6 +725,8 @@ def search(ctx, broken, disagreements):
     n = 0
     for ops in itertools.chain(itertools.product(REMOTE_OPS, repeat=1), itertools.product(["store"], REMOTE_OPS), itertools.product(["store"], REMOTE_OPS, REMOTE_OPS)):
         for k in ("a/b.txt", "a"):
+            if k == "a" and set(ops) & {"store", "store_metadata"} or k != "a" and "makedir" in ops:
+                continue      # well-formed histories only: files are not directories
             h = [[o, k, ["data", {}] if o == "store" else {} if o == "store_metadata" else None] for o in ops]
             n += 1
             r = run_remote_hist(client, h)
@@ -723,6 +745,10 @@ def search(ctx, broken, disagreements):
 
 def replay(ctx, case):
     app, client = setup()
+    return replay_case(client, case)
+
+
+def replay_case(client, case):
     k = case["kind"]
     if k == "serve":
         return oracle_serve(client, case["query"])
